@@ -491,8 +491,8 @@ def check_position_stores(ctx, cfg, rule="C03.Q"):
     """The position of a builder / consumer says which slots hold live elements; it may only move as part of a judged step - a closure of the
     element-moving protocol (its stores are the closure's own `inc` events) or one iteration of a loop the protocol gives a role to. A store to a
     position anywhere else (`self.position = source.take(N).count()`: elements counted, dropped by `count`, and then claimed) changes what the
-    owner will drop without an element having been moved. The by-value iterator's cursors are excluded here: each store to them is judged
-    against the deque specification (C06.I / C06.S) and the ownership path rules (C03.I)."""
+    owner will drop without an element having been moved. Stores to the by-value iterator's cursors inside the iterator's own methods are
+    judged against the deque specification (C06.I / C06.S / C06.E) and the ownership path rules (C03.I); anywhere else they are reported here."""
     from ..loops import find_loops
     from ..tys import pointee
     db = ctx.db(cfg)
@@ -514,7 +514,7 @@ def check_position_stores(ctx, cfg, rule="C03.Q"):
         elif obase[0] == "arg":
             pt = pointee(a.local_ty(obase[1]))
             adt = pt["def"] if pt is not None and pt.get("k") == "adt" else None
-        if adt in owners and opath[0] in owners[adt]["pos"] and not adt.endswith("GenericArrayIter"):
+        if adt in owners and opath[0] in owners[adt]["pos"]:
             return adt, owners[adt]["names"][opath[0]]
         return None
     for b in db.bodies:
@@ -533,9 +533,12 @@ def check_position_stores(ctx, cfg, rule="C03.Q"):
             if role != "none":
                 judged |= set(lp.blocks)
         bad = []
+        own_impl = b.get("impl_self") or {}
         for s_, (adt, fname) in cands:
             if s_["site"][0] in judged:
                 continue
+            if adt.endswith("::GenericArrayIter") and own_impl.get("k") == "adt" and own_impl.get("def") == adt:
+                continue   # the iterator's own methods: every store to a cursor is judged by C06.I/S/E and C03.I
             bad.append("`%s` of %s is assigned %s at %s outside any judged element-moving step" % (fname, adt.split("::")[-1], vstr(s_["val"])[:80], s_.get("at") or s_["site"]))
         ctx.ob(rule, b["key"], not bad, "; ".join(sorted(set(bad))) if bad else "%d store(s) to a builder / consumer position, each inside a judged loop step" % len(cands), at=b["at"], cfg=cfg, frozen=False)
         n += 1
@@ -650,6 +653,7 @@ def check(ctx):
         it = c06.It(ctx.db(cfg))
         for nm in ("next", "next_back", "nth", "nth_back"):
             c06.check_ownership(ctx, cfg, it, nm)
+        c06.check_other_cursor_moves(ctx, cfg, it, "C03.I")
         # C03.K: no method of the iterator lets element-reading code see slots outside the live range (they were moved out or destroyed)
         c06.check_live_range(ctx, cfg, it, "C03.K")
         s = check_suppression_sites(ctx, cfg)
